@@ -284,7 +284,7 @@ def finish(pid, tier, seed, mod, results, st_ok, st_info, t0):
     kf_hit = {}
     for k in known:
         ent = kf.get(k["kf"])
-        if ent is not None and ent.get("status") == "open" and ent.get("property") == pid:
+        if ent is not None and ent.get("status") == "open" and pid in ent.get("properties", [ent.get("property")]):
             kf_hit.setdefault(k["kf"], []).append(k)
         else:
             violations.append({"mechanism": "unlisted-or-fixed-finding:" + k["kf"], "witness": k["witness"],
